@@ -48,6 +48,17 @@ def _rr_of_channel(expr_text):
     return None
 
 
+def lock_counter_range(ctx, rid):
+    """The outstanding-request counters of the arbiter / decoder locks stay inside 0..max-1 (shared with C11: the watchdog answers
+    requests the slaves never counted -- a decrement that is not guarded by ~empty wraps the counter to its top, `full` then blocks
+    every increment, the lock never reads ready again and the bus hangs after the first time-out)."""
+    from ..rules_stream import s_range
+    n = 0
+    for rel, ccls, acls, dcls, full in FAMILIES:
+        n += s_range(ctx, rid, fx_of(ctx, rel, ccls), ccls, "self.counter")
+    return n
+
+
 def run(ctx):
     ctx.rule("L1", "request counter: +1 only on request & ~full & ~response, -1 only on response & ~empty & ~request, ready is "
                    "empty, empty = counter == 0", min_sites=14)
